@@ -19,7 +19,7 @@ from coqfmt import zraw, b, lst, tup
 
 replay = common.generic_replay
 
-IMPORTS = 'Graph PyHash Fingerprint'
+IMPORTS = 'Graph PyHash Fingerprint FingerprintCGR'
 EXTRA = '''
 Import ListNotations.
 Open Scope Z_scope.
@@ -64,6 +64,23 @@ Definition mhd_full_ok (g : mol) (lo hi : Z) (e : pyres (list (list (Z * Z)))) :
 Definition mhs_full_ok (g : mol) (lo hi : Z) (e : pyres (list Z)) : bool := ok_set (morgan_hash_list hash_ztuple_fast g lo hi) e.
 Definition mbs_full_ok (g : mol) (lo hi len nab : Z) (e : pyres (list Z)) : bool :=
   ok_set (morgan_bit_list hash_ztuple_fast g lo hi len nab) e.
+(* CGR containers (Model.FingerprintCGR) *)
+Definition cwf_ok (c : cgr) : bool := wf_cgr c.
+Definition cids_ok (c : cgr) (e : list (Z * Z)) : bool := dict_eqb (cgr_atom_identifiers c) e.
+Definition cint_ok (c : cgr) (e : list (Z * list (Z * Z))) : bool :=
+  list_eqb (pair_eqb Z.eqb dict_eqb) (map (fun nl => (fst nl, map (fun mb => (fst mb, b_ord (snd mb))) (snd nl))) (m_adj (cgr_skeleton c))) e.
+Definition cchains_ok (c : cgr) (lo hi : Z) (e : list path) : bool := paths_eqb (set_paths (cgr_chains c lo hi)) e.
+Definition cfrags_ok (c : cgr) (lo hi : Z) (e : list (list Z * list path)) : bool :=
+  frags_eqb (canon_frags (map (fun kv => (enc_key (map snd (cgr_atom_identifiers c)) (fst kv), snd kv)) (cgr_fragments c lo hi))) e.
+Definition clhs_ok (c : cgr) (lo hi nbp : Z) (e : list Z) : bool :=
+  list_eqb Z.eqb (set_z (cgr_linear_hash_list hash_ztuple_fast c lo hi nbp)) e.
+Definition clbs_ok (c : cgr) (lo hi len nab nbp : Z) (e : pyres (list Z)) : bool :=
+  ok_set (cgr_linear_bit_list hash_ztuple_fast c lo hi len nab nbp) e.
+Definition cmhd_ok (c : cgr) (lo hi : Z) (e : pyres (list (list (Z * Z)))) : bool :=
+  pyres_eqb (list_eqb dict_eqb) (cgr_morgan_hash_dict hash_ztuple_fast c lo hi) e.
+Definition cmhs_ok (c : cgr) (lo hi : Z) (e : pyres (list Z)) : bool := ok_set (cgr_morgan_hash_list hash_ztuple_fast c lo hi) e.
+Definition cmbs_ok (c : cgr) (lo hi len nab : Z) (e : pyres (list Z)) : bool :=
+  ok_set (cgr_morgan_bit_list hash_ztuple_fast c lo hi len nab) e.
 '''
 
 
@@ -443,6 +460,310 @@ def corr_molecules(ck):
                      [repr(x) for x in bad[:20]])
     by_tag = {tag: (smi, m) for tag, smi, m in mols}
     return good, bad, by_tag
+
+
+# ------------------------------------------------------------------------------------------------------------
+# CGR containers (FingerprintsCGR)
+
+REACTIONS = [('CC(=O)O', 'CC(=O)[O-]', None), ('CCO', 'CC=O', None), ('CCO.Cl', 'CCCl.O', {4: 3, 3: 4}), ('C=CC=C.C=C', 'C1CCC=CC1', {5: 6, 6: 5}),
+             ('C[CH2]', 'CC', None), ('[13CH3]O', '[13CH3][O-]', None), ('CC(=O)Cl.N', 'CC(=O)N.Cl', {4: 5, 5: 4}), ('c1ccccc1', 'C1=CC=CC=C1', None),
+             ('C', 'C', None), ('OO', 'O.O', None)]
+
+
+def cgr_from_dicts(atoms, bonds):
+    """CGRContainer from {n: (atomic number, isotope, charge, p_charge, is_radical, p_is_radical)} and
+    {n: {m: (order, p_order)}} (given in both directions, insertion order kept); one DynamicBond object per bond"""
+    from chython.containers import CGRContainer
+    from chython.containers.bonds import DynamicBond
+    from chython.periodictable import DynamicElement
+    c = CGRContainer()
+    for n, (z, iso, ch, pch, rad, prad) in atoms.items():
+        a = DynamicElement.from_atomic_number(z)(iso)
+        a._charge, a._p_charge, a._is_radical, a._p_is_radical = ch, pch, rad, prad
+        c._atoms[n] = a
+        c._bonds[n] = {}
+    made = {}
+    for n, nb in bonds.items():
+        for m, (o, po) in nb.items():
+            bd = made.get((m, n))
+            if bd is None:
+                bd = made[(n, m)] = DynamicBond(o, po)
+            c._bonds[n][m] = bd
+    return c
+
+
+def cgr_dicts(c):
+    atoms = {n: (a.atomic_number, a.isotope, a.charge, a.p_charge, a.is_radical, a.p_is_radical) for n, a in c._atoms.items()}
+    bonds = {n: {m: (bd.order, bd.p_order) for m, bd in nb.items()} for n, nb in c._bonds.items()}
+    return atoms, bonds
+
+
+def cgr_renumbered(c, rng):
+    atoms, bonds = cgr_dicts(c)
+    nums = list(atoms)
+    mp = dict(zip(nums, rng.sample(range(1, 3 * len(nums) + 10), len(nums))))
+    return cgr_from_dicts({mp[n]: a for n, a in atoms.items()}, {mp[n]: {mp[m]: b_ for m, b_ in nb.items()} for n, nb in bonds.items()})
+
+
+def cgr_shuffled(c, rng):
+    atoms, bonds = cgr_dicts(c)
+    order = list(atoms)
+    rng.shuffle(order)
+    nb2 = {}
+    for n in order:
+        ks = list(bonds[n])
+        rng.shuffle(ks)
+        nb2[n] = {k: bonds[n][k] for k in ks}
+    return cgr_from_dicts({n: atoms[n] for n in order}, nb2)
+
+
+def random_cgr(rng, n_atoms):
+    nums = rng.sample(range(1, 60), n_atoms)
+    atoms = {}
+    for n in nums:
+        z = rng.choice([6, 6, 6, 7, 8, 16, 9, 15])
+        ch = rng.choice([0, 0, 0, 1, -1])
+        rad = rng.random() < 0.1
+        atoms[n] = (z, {6: 13, 7: 15, 8: 18, 16: 34, 9: 18, 15: 32}[z] if rng.random() < 0.15 else None, ch, ch if rng.random() < 0.7 else rng.choice([0, 1, -1]),
+                    rad, rad if rng.random() < 0.8 else not rad)
+    bonds = {n: {} for n in nums}
+    p = rng.choice([0.25, 0.4, 0.6, 1.0])
+    for i, j in itertools.combinations(nums, 2):
+        if rng.random() < p:
+            o = rng.choice([1, 1, 2, 3, 4, None])
+            po = o if rng.random() < 0.6 else rng.choice([1, 2, 3, 4, 8, None])
+            if o is None and po is None:
+                po = 1
+            bonds[i][j] = bonds[j][i] = (o, po)
+    return cgr_from_dicts(atoms, bonds)
+
+
+def cgr_term(c):
+    atoms, bonds = cgr_dicts(c)
+    at = lst([tup(zraw(n), f'(mkCAtom {zraw(z)} {opt_z(iso)} {zraw(ch)} {zraw(pch)} {b(rad)} {b(prad)})') for n, (z, iso, ch, pch, rad, prad) in atoms.items()])
+    adj = lst([tup(zraw(n), lst([tup(zraw(m), f'(mkCBond {opt_z(o)} {opt_z(po)})') for m, (o, po) in nb.items()])) for n, nb in bonds.items()])
+    return f'(mkCgr {at} {adj})'
+
+
+def opt_z(v):
+    return 'None' if v is None else f'(Some {zraw(v)})'
+
+
+def cgr_pool(ck, rng):
+    from chython import smiles
+    quick = ck.tier == 'quick'
+    out = []
+    for r, p_, mp in REACTIONS:
+        a, b_ = smiles(r), smiles(p_)
+        if mp:
+            b_.remap(mp)
+        try:
+            out.append((f'compose:{r}>>{p_}', a ^ b_))
+        except Exception:
+            continue
+    # a corpus molecule composed with an edited copy of itself (bond deleted / order changed / charge changed)
+    n_c = 0
+    for smi in corpus.sample(corpus.lipo(), 200 if quick else 1500, ck.seed, 'c17cgr'):
+        if n_c >= (10 if quick else 100):
+            break
+        m = parse(smi)
+        if m is None or not 4 <= len(m._atoms) <= 24:
+            continue
+        m2 = m.copy()
+        try:
+            bl = [(x, y) for x, y, _ in m2.bonds()]
+            x, y = rng.choice(bl)
+            m2.delete_bond(x, y)
+            x, y = rng.choice([q for q in bl if q != (x, y)])
+            old = int(m2.bond(x, y))
+            m2.delete_bond(x, y)
+            m2.add_bond(x, y, rng.choice([o for o in (1, 2, 3) if o != old]))
+            c = m ^ m2
+        except Exception:
+            continue
+        n_c += 1
+        out.append((f'corpus-cgr:{smi}', c))
+    for i in range(16 if quick else 200):
+        k = rng.choice([1, 2, 3, 4, 4, 5, 5, 6, 7])
+        out.append((f'generated-cgr:{i}:{k}', random_cgr(rng, k)))
+    extra = []
+    for j, (tag, c) in enumerate(out):
+        if j % 4 == 1:
+            extra.append((tag + ':renumbered', cgr_renumbered(c, rng)))
+        if j % 4 == 3:
+            extra.append((tag + ':shuffled', cgr_shuffled(c, rng)))
+    return out + extra
+
+
+def corr_cgr(ck):
+    rng = random.Random(f'{ck.seed}:cgr')
+    pool = cgr_pool(ck, rng)
+    defs, cases = [], []
+
+    def add(expr, tag, what, params, cost=0):
+        cases.append((expr, (tag, what, params)))
+        ck.case((tag, what, params))
+        ck.count('cgr:' + what)
+
+    for i, (tag, c) in enumerate(pool):
+        g = f'c{i}'
+        n = len(c._atoms)
+        ck.count('cgr molecules:' + tag.split(':')[0] + (':' + tag.rsplit(':', 1)[1] if tag.endswith(('renumbered', 'shuffled')) else ''))
+        defs.append(f'Definition {g} : cgr := {cgr_term(c)}.\n')
+        add(f'cwf_ok {g}', tag, 'wf_cgr', ())
+        ids = c._atom_identifiers
+        add(f'cids_ok {g} {dict_term(ids)}', tag, '_atom_identifiers', ())
+        add(f'cint_ok {g} {lst([tup(zraw(k), dict_term({m: int(bd) for m, bd in nb.items()})) for k, nb in c._bonds.items()])}', tag, 'int(DynamicBond)', ())
+        idvals = list(ids.values())
+        small = n <= 10
+        radii = RADII if small else [r for r in RADII if r[1] <= 3]
+        spent = 0
+        for lo, hi in rng.sample(radii, 3 if small else 2) + rng.sample(BAD_RADII, 1):
+            ch = c._chains(lo, hi)
+            if len(ch) > MAX_PATHS_FRAGS:
+                continue
+            a = f'{g} {zraw(lo)} {zraw(hi)}'
+            add(f'cchains_ok {a} {pl(sorted(ch))}', tag, '_chains(set)', (lo, hi))
+            frd = c._fragments(lo, hi)
+            fr = sorted(([idvals.index(x) if j % 2 == 0 else x for j, x in enumerate(k)], sorted(v)) for k, v in frd.items())
+            add(f'cfrags_ok {a} {lst([tup(zl(k), pl(v)) for k, v in fr])}', tag, '_fragments', (lo, hi))
+            nbp = rng.choice(NBPS)
+            cap = nbp or 999_999_999
+            lanes = sum((len(k) + 1) * max(0, min(len(v), cap)) for k, v in frd.items())
+            if spent + lanes > (1500 if small else 600):
+                continue
+            spent += lanes
+            add(f'clhs_ok {a} {zraw(nbp)} {zl(sorted(c.linear_hash_set(lo, hi, nbp)))}', tag, 'linear_hash_set', (lo, hi, nbp))
+            if small:
+                ln = rng.choice(LENGTHS + BAD_LENGTHS)
+                nab = rng.choice(NABS)
+                t_, err = res_term(lambda: c.linear_bit_set(lo, hi, ln, nab, nbp), lambda s: zl(sorted(s)))
+                add(f'clbs_ok {a} {zraw(ln)} {zraw(nab)} {zraw(nbp)} ({t_})', tag, 'linear_bit_set' + (':' + err if err else ''), (lo, hi, ln, nab, nbp))
+        for lo, hi in (rng.sample(RADII, 2) if small else rng.sample([r for r in RADII if r[1] <= 3], 1)) + rng.sample(BAD_RADII, 1):
+            a = f'{g} {zraw(lo)} {zraw(hi)}'
+            t_, err = res_term(lambda: c._morgan_hash_dict(lo, hi), lambda ds: lst([dict_term(x) for x in ds]))
+            add(f'cmhd_ok {a} ({t_})', tag, '_morgan_hash_dict' + (':' + err if err else ''), (lo, hi))
+            if small:
+                t_, err = res_term(lambda: c.morgan_hash_set(lo, hi), lambda s: zl(sorted(s)))
+                add(f'cmhs_ok {a} ({t_})', tag, 'morgan_hash_set' + (':' + err if err else ''), (lo, hi))
+                ln, nab = rng.choice(LENGTHS + BAD_LENGTHS), rng.choice(NABS)
+                t_, err = res_term(lambda: c.morgan_bit_set(lo, hi, ln, nab), lambda s: zl(sorted(s)))
+                add(f'cmbs_ok {a} {zraw(ln)} {zraw(nab)} ({t_})', tag, 'morgan_bit_set' + (':' + err if err else ''), (lo, hi, ln, nab))
+    n_sh = 4 if ck.tier == 'quick' else 24
+    ok, failing, log = coqcases.run_cases('c17c', IMPORTS, [x[0] for x in cases], extra=EXTRA + ''.join(defs), shard=max(1, (len(cases) + n_sh - 1) // n_sh))
+    good = ok and not failing
+    ck.oblige(f'correspondence (CGR): FingerprintsCGR._atom_identifiers, int(DynamicBond), _chains, _fragments, linear_hash_set, linear_bit_set, _morgan_hash_dict, '
+              f'morgan_hash_set, morgan_bit_set on CGRContainer == Model.FingerprintCGR on {len(pool)} CGRs / {len(cases)} cases', good, 'correspondence',
+              log or repr([cases[i][1] for i in failing[:8]]))
+    ck.extra['cgr_cases'] = len(cases)
+    ck.extra['cgr_containers'] = len(pool)
+    bad = [cases[i][1] for i in failing]
+    if not good:
+        ck.unchecked('correspondence FingerprintCGR model vs FingerprintsCGR on CGRContainer', log[-1500:], [repr(x) for x in bad[:20]])
+    # search: model-independent oracles on every CGR of the pool (all of them when the correspondence broke: the same pool)
+    timed_search = 0
+    for tag, c in pool:
+        timed_search += search_cgr(ck, tag, c, rng)
+    ck.extra['cgr_search_evaluations'] = timed_search
+    return good
+
+
+def my_cgr_identifiers(c):
+    return {n: hash((a.isotope or 0, a.atomic_number, a.charge, a.p_charge, bool(a.is_radical), bool(a.p_is_radical))) for n, a in c._atoms.items()}
+
+
+def search_cgr(ck, tag, c, rng):
+    """brute-force paths / fragment counts / recursive Morgan / windows / renumbering and shuffling on a CGR"""
+    n_eval = 0
+    try:
+        adj = {n: list(nb) for n, nb in c._bonds.items()}
+        ids = my_cgr_identifiers(c)
+        bint = {(n, m): hash((bd.order or 0, bd.p_order or 0)) for n, nb in c._bonds.items() for m, bd in nb.items()}
+        small = len(adj) <= 10
+        for lo, hi in rng.sample(RADII if small else [r for r in RADII if r[1] <= 4], 2):
+            got = c._chains(lo, hi)
+            exp = brute_paths(adj, lo, hi)
+            n_eval += 1
+            ck.case(('cgr-paths', tag, lo, hi), nontrivial=len(exp) > len(adj))
+            as_pairs = Counter(frozenset((x, x[::-1])) for x in got)
+            if set(as_pairs) != exp or any(v != 1 for v in as_pairs.values()) or any(len(x) > 1 and not x[0] > x[-1] for x in got):
+                cx(ck, f'cgr-chains:{tag}:{lo}:{hi}', '_chains of a CGR is not the set of simple paths with min..max atoms in one orientation',
+                   {'cgr': tag, 'dicts': cgr_dicts(c), 'min_radius': lo, 'max_radius': hi}, len(got), f'{len(exp)} undirected simple paths', 'depth-first brute-force path enumerator')
+                continue
+            cnt = Counter()
+            for pair in exp:
+                p = next(iter(pair))
+                var = [ids[p[0]]]
+                for x, y in zip(p, p[1:]):
+                    var += [bint[(x, y)], ids[y]]
+                var = tuple(var)
+                cnt[max(var, var[::-1])] += 1
+            fr = c._fragments(lo, hi)
+            got_u = Counter()
+            for k, v in fr.items():
+                got_u[max(k, k[::-1])] += len(v)
+            if got_u != cnt or len(got_u) != len(fr):
+                cx(ck, f'cgr-fragments:{tag}:{lo}:{hi}', '_fragments of a CGR: keys / multiplicities differ from the path oracle', {'cgr': tag, 'dicts': cgr_dicts(c), 'radii': (lo, hi)},
+                   len(fr), len(cnt), 'brute-force fragment counter')
+                continue
+            nbp = rng.choice([0, 1, 2, 4])
+            cap = nbp or 999_999_999
+            exp_h = {hash((*k, i)) for k, v in fr.items() for i in range(min(len(v), cap))}
+            got_h = c.linear_hash_set(lo, hi, nbp)
+            n_eval += 1
+            ck.case(('cgr-hashset', tag, lo, hi, nbp))
+            if got_h != exp_h:
+                cx(ck, f'cgr-hash_set:{tag}:{lo}:{hi}:{nbp}', 'linear_hash_set of a CGR differs from {hash((*key, c)) for c < min(count, number_bit_pairs)}',
+                   {'cgr': tag, 'dicts': cgr_dicts(c), 'args': (lo, hi, nbp)}, len(got_h ^ exp_h), 0, 'fragment counter + multiplicity cap')
+                continue
+            k_, nab = rng.choice([1, 6, 10, 12]), rng.choice([1, 2, 3, 4])
+            bits = c.linear_bit_set(lo, hi, 2 ** k_, nab, nbp)
+            exp_b = set().union(*(window_bits(h, 2 ** k_, nab) for h in exp_h)) if exp_h else set()
+            fp = c.linear_fingerprint(lo, hi, 2 ** k_, nab, nbp)
+            if bits != exp_b or set(int(i) for i in fp.nonzero()[0]) != bits or len(fp) != 2 ** k_:
+                cx(ck, f'cgr-bit_set:{tag}:{lo}:{hi}:{nbp}:{2 ** k_}:{nab}', 'linear_bit_set / linear_fingerprint of a CGR is not the union of the windows of the hashes',
+                   {'cgr': tag, 'dicts': cgr_dicts(c), 'args': (lo, hi, 2 ** k_, nab, nbp)}, sorted(bits ^ exp_b)[:8], 'windows', 'arithmetic definition of the folding')
+            # Morgan
+            memo = {}
+
+            def ident(a, r):
+                if r == 0:
+                    return ids[a]
+                if (a, r) not in memo:
+                    env = sorted((bint[(a, x)], ident(x, r - 1)) for x in adj[a])
+                    memo[(a, r)] = hash((ident(a, r - 1),) + tuple(v for pr in env for v in pr))
+                return memo[(a, r)]
+
+            exp_m = {ident(a, r) for r in range(lo - 1, hi) for a in adj}
+            got_m = c.morgan_hash_set(lo, hi)
+            n_eval += 1
+            ck.case(('cgr-morgan', tag, lo, hi))
+            if got_m != exp_m:
+                cx(ck, f'cgr-morgan:{tag}:{lo}:{hi}', 'morgan_hash_set of a CGR differs from the iterated neighbourhood identifiers of the requested radii',
+                   {'cgr': tag, 'dicts': cgr_dicts(c), 'radii': (lo, hi)}, len(got_m ^ exp_m), 0, 'recursive neighbourhood hasher')
+        lo, hi = rng.choice([(1, 4), (1, 3), (2, 4), (2, 3)])
+        nbp, nab, length = rng.choice([0, 2, 4]), rng.choice([1, 2, 3, 4]), rng.choice([256, 1024, 4096])
+        def obs(x):
+            return {'linear_hash_set': x.linear_hash_set(lo, hi, nbp), 'linear_bit_set': x.linear_bit_set(lo, hi, length, nab, nbp),
+                    'linear_fingerprint': x.linear_fingerprint(lo, hi, length, nab, nbp).tolist(),
+                    'fragment multiset': Counter({k: len(v) for k, v in x._fragments(lo, hi).items()}),
+                    'morgan_hash_set': x.morgan_hash_set(lo, hi), 'morgan_bit_set': x.morgan_bit_set(lo, hi, length, nab),
+                    'morgan_fingerprint': x.morgan_fingerprint(lo, hi, length, nab).tolist()}
+        base = obs(c)
+        for variant, mk in (('renumbered', cgr_renumbered), ('order-shuffled', cgr_shuffled)):
+            c2 = mk(c, rng)
+            got = obs(c2)
+            n_eval += 1
+            ck.case(('cgr-invariance', tag, variant, lo, hi, nbp, nab, length))
+            for name in base:
+                if got[name] != base[name]:
+                    cx(ck, f'cgr-invariance:{name}:{variant}:{tag}', f'{name} of a CGR changes when it is {variant}', {'cgr': tag, 'dicts': cgr_dicts(c), 'variant dicts': cgr_dicts(c2),
+                       'args': (lo, hi, length, nab, nbp)}, 'differs', 'identical', 'same CGR, other numbering / insertion order')
+                    break
+    except Exception as e:
+        cx(ck, f'cgr-exception:{tag}', f'a fingerprint function of a CGR raised {type(e).__name__} on documented parameters', {'cgr': tag, 'dicts': cgr_dicts(c)},
+           f'{type(e).__name__}: {e}', 'a value', 'no exception')
+    return n_eval
 
 
 # ------------------------------------------------------------------------------------------------------------
@@ -1013,8 +1334,9 @@ def run(ck):
     tied_hash = timed('correspondence PyHash', corr_pyhash, ck)
     tied_fold, bad_fold = timed('correspondence folding', corr_folding, ck)
     tied_x, bad_x, by_tag_x = timed('correspondence exhaustive', corr_exhaustive, ck)
+    tied_cgr = timed('correspondence + search CGR', corr_cgr, ck)
     tied_fp, bad, by_tag = timed('correspondence molecules', corr_molecules, ck)
-    all_ok = proved and tied_hash and tied_fp and tied_fold and tied_x
+    all_ok = proved and tied_hash and tied_fp and tied_fold and tied_x and tied_cgr
     if not (tied_fp and tied_x):
         by_tag.update(by_tag_x)
         timed('directed search', directed_search, ck, bad_x + bad, by_tag)
@@ -1026,4 +1348,4 @@ def run(ck):
         n_corpus, n_gen = (1500, 1500) if all_ok else (3000, 3000)
     timed('search', search, ck, n_corpus, n_gen)
     ck.extra['proved'] = proved
-    ck.extra['tied'] = bool(tied_hash and tied_fp and tied_fold and tied_x)
+    ck.extra['tied'] = bool(tied_hash and tied_fp and tied_fold and tied_x and tied_cgr)
